@@ -642,6 +642,14 @@ func (s *Stream) ProcessSync(data map[string]any) (map[string]any, error) {
 func (s *Stream) enrichData(data map[string]any) (dataMap map[string]any, keep bool, err error) {
 	dataMap = data
 	if !s.hasJoin() {
+		if s.writesIntoRow() {
+			// The map belongs to the caller (Emit hands it through the input buffer
+			// without copying): work on a copy, like the JOIN path does.
+			dataMap = make(map[string]any, len(data)+len(s.config.AnalyticFields)+len(s.config.WhereAnalyticCalls)+1)
+			for k, v := range data {
+				dataMap[k] = v
+			}
+		}
 		return dataMap, true, nil
 	}
 	wm, k, jerr := s.enrichJoin(data)
@@ -652,6 +660,21 @@ func (s *Stream) enrichData(data map[string]any) (dataMap map[string]any, keep b
 		return dataMap, false, nil // INNER JOIN 无匹配：丢弃
 	}
 	return wm, true, nil
+}
+
+// writesIntoRow reports whether the pipeline injects computed values into the row
+// map: analytic results and WHERE placeholders (evalAnalytic), function-expression
+// GROUP BY keys (injectGroupKeyExprs).
+func (s *Stream) writesIntoRow() bool {
+	if len(s.config.AnalyticFields) > 0 || len(s.config.WhereAnalyticCalls) > 0 {
+		return true
+	}
+	for _, gf := range s.config.GroupFields {
+		if strings.Contains(gf, "(") {
+			return true
+		}
+	}
+	return false
 }
 
 // applyWhereAndAnalytic 按 WHERE 是否引用分析函数决定求值序，并应用 WHERE 过滤。
